@@ -33,7 +33,8 @@ pub enum Finish {
     Respond { status: u16, body_len: usize, declared: bool, threshold: Option<usize>, max_piece: usize },
     Drop,
     /// into_writer, then a complete hand-written HTTP/1.1 message in parts (len, flush after?)
-    Writer { status: u16, body_len: usize, parts: Vec<(usize, bool)>, early_drop_sleep_us: u64 },
+    /// `vectored`: the parts are written with `write_vectored` (several slices per call)
+    Writer { status: u16, body_len: usize, parts: Vec<(usize, bool)>, early_drop_sleep_us: u64, vectored: bool },
     /// upgrade("vproto"), read the stream to EOF if `read`, write `write` bytes, drop
     Upgrade { read: bool, write: usize },
     /// panic while owning the request
@@ -253,7 +254,22 @@ fn read_body(plan: &ReqPlan, rd: &mut dyn FnMut(&mut [u8]) -> std::io::Result<us
             }
         }
         let mut buf = vec![0u8; sz];
-        match rd(&mut buf) {
+        // `ErrorKind::Interrupted` is the one error a caller has to retry (that is what
+        // read_to_end, read_exact and io::copy do); a reader that keeps returning it never lets
+        // such a caller out, which is recorded after 10 000 consecutive retries
+        let mut interrupted = 0u32;
+        let res = loop {
+            match rd(&mut buf) {
+                Err(e) if e.kind() == std::io::ErrorKind::Interrupted && interrupted < 10_000 => interrupted += 1,
+                other => break other,
+            }
+        };
+        if interrupted >= 10_000 {
+            reads.push((sz, -1));
+            err = Some("INTERRUPTED-FOREVER: the body reader returned ErrorKind::Interrupted 10000 times in a row; a caller that follows the Read contract (read_to_end, read_exact, io::copy) would never get out".to_string());
+            break;
+        }
+        match res {
             Ok(0) => {
                 reads.push((sz, 0));
                 if eof {
@@ -380,13 +396,38 @@ pub fn execute_plan(mut rq: Request, plan: &ReqPlan, rec: &Arc<Mutex<Delivered>>
         Finish::Drop => {
             lib(|| drop(rq));
         }
-        Finish::Writer { status, body_len, parts, early_drop_sleep_us } => {
+        Finish::Writer { status, body_len, parts, early_drop_sleep_us, vectored } => {
             let msg = raw_message(echo, k, *status, *body_len);
             let mut w = lib(|| rq.into_writer());
             let mut pos = 0;
             for (i, (len, flush)) in parts.iter().enumerate() {
                 let end = if i + 1 == parts.len() { msg.len() } else { (pos + len).min(msg.len()) };
-                if let Err(e) = lib(|| w.write_all(&msg[pos..end])) {
+                let res = if *vectored {
+                    // the same bytes as two or three slices per call, until all are taken
+                    let mut at = pos;
+                    let mut r = Ok(());
+                    while at < end {
+                        let a = at + (end - at) / 3;
+                        let b = at + 2 * (end - at) / 3;
+                        let slices = [std::io::IoSlice::new(&msg[at..a]), std::io::IoSlice::new(&msg[a..b]), std::io::IoSlice::new(&msg[b..end])];
+                        match lib(|| w.write_vectored(&slices)) {
+                            Ok(0) => {
+                                r = Err(std::io::Error::new(std::io::ErrorKind::WriteZero, "write_vectored returned 0"));
+                                break;
+                            }
+                            Ok(n) => at += n,
+                            Err(e) if e.kind() == std::io::ErrorKind::Interrupted => {}
+                            Err(e) => {
+                                r = Err(e);
+                                break;
+                            }
+                        }
+                    }
+                    r
+                } else {
+                    lib(|| w.write_all(&msg[pos..end]))
+                };
+                if let Err(e) = res {
                     ferr = Some(format!("write {:?}: {}", e.kind(), e));
                     break;
                 }
